@@ -480,6 +480,9 @@ func init() {
 			{P: P("S1", 165, 2, 3, 0, 1, false), Need: []string{"TruncatedDeltas"}},
 			{P: P("S3", 165, 2, 2, 0, 1, false), Need: []string{"TruncatedDeltas"}},
 			{P: P("S5", 130, 2, 3, 0, 1, false), Need: []string{"TruncatedDigests"}},
+			// datagrams that carry the internal markers (compaction, leave)
+			{P: P("S2", 165, 4, 3, 0, 1, false), Need: []string{"MarkersApplied"}},
+			{P: P("S8", 1400, 4, 3, 0, 1, false), Need: []string{"LeavesSeen"}},
 		}
 		if run.Thorough() {
 			jobs = []gossipJob{
@@ -493,6 +496,9 @@ func init() {
 		}
 		runGossip(run, "C13", jobs)
 		states, _ := run.Coverage["states"].(int)
+		// stalled stream peers (seq_c13_stall.go)
+		stallCases := c13Stalls(run)
+		run.Set("stalled_stream_peer_cases", stallCases)
 		// C. hostile input in a worker process (address-space limit, watchdog)
 		maxLen := "2"
 		if run.Thorough() {
